@@ -68,7 +68,7 @@ def run(ctx):
     for f in glob.glob(os.path.join(wd, "recs*")) + glob.glob(os.path.join(wd, "cases*")):
         os.remove(f)
     exe = build.build("c08_match", ["c08_match.cpp"], ["ebus", "utils"])
-    sample = 32000 if ctx.thorough else 0
+    sample = 12000 if ctx.thorough else 0
     t0 = time.time()
     g = tlc.run("C08Gen", "C08Gen.cfg", env={"VF_TIER": ctx.tier, "VF_OUT": gen, "VF_SAMPLE": sample, "VF_SEED": ctx.seed},
                 workers=12, timeout=900, heap="12g", tag="C08-gen")
@@ -142,14 +142,26 @@ def run(ctx):
                       {"lines": lines, "case": r["c"], "load": r["load"], "res": r["res"]})
     for reason, cnt in sorted(notes.items()):
         ctx.drift.append("S model MsgMatch differs from the code (%s) on %d records; P decides" % (reason, cnt))
-    evals = ntel * 16
+    # measured: number of real find calls, and how many of them returned a definition / the scan message
+    evals = 0
+    hits = 0
+    with open(rf) as f:
+        for line in f:
+            for row in json.loads(line)["res"]:
+                for packed in row:
+                    for _m in range(8):
+                        evals += 1
+                        if packed % 6 != 1:
+                            hits += 1
+                        packed //= 6
     first = recs.read_ndjson(parts[0])[:2]
     ctx.coverage = {
         "states": states, "transitions": generated, "traces_validated_against_impl": ncase,
-        "evaluations": evals, "distinct_nontrivial": evals,
+        "evaluations": evals, "distinct_nontrivial": hits,
         "rule": "one evaluation = one real MessageMap::find call (telegram x anyDestination x 8 direction sets [x onlyAvailable]) "
-                "on a freshly loaded definition set; cases are distinct by construction (sets of TLC values), every telegram is "
-                "derived from a definition of the set (keep/truncate/extend/mutate) so none is trivial",
+                "on a freshly loaded definition set; all are distinct by construction (cases are elements of TLC sets, telegrams "
+                "and modes are enumerated without repetition); counted as non-trivial: the calls that returned a definition or the "
+                "scan message (the others check that nothing is returned for a truncated/mutated/foreign telegram or direction)",
         "samples": [{"lines": [render_line(d, j + 1) for j, d in enumerate(r["c"]["defs"])], "tels": [hx(t) for t in r["c"]["tels"][:3]],
                      "res": r["res"][:3]} for r in first],
         "cases": ncase, "telegrams": ntel, "families": shards, "records_rejected": nbad,
